@@ -33,7 +33,7 @@ def _eq_shapes():
 def _is_promotable(x):
     from pyvc.interp import Obj
     from pyvc.extern import PStr, SymBytes
-    return isinstance(x, (PStr, SymBytes, BA)) or (isinstance(x, Obj) and any(k.name == 'Bits' for k in x.cls.mro))
+    return isinstance(x, (PStr, SymBytes, BA, str)) or (isinstance(x, Obj) and any(k.name == 'Bits' for k in x.cls.mro))
 
 
 @contract('bits.Bits.__eq__', shapes=_eq_shapes(), props={'C13', 'C08'}, kind='public',
